@@ -505,6 +505,7 @@ func closeIdle() {
 	if tr, ok := http.DefaultTransport.(*http.Transport); ok {
 		tr.CloseIdleConnections()
 	}
+	closeRegisteredIdle(false) // the transports of user-level request handlers (spawnrace.go)
 }
 
 // closeClient runs Close under the watchdog; returns whether it returned, how long it took and its error.
